@@ -123,6 +123,85 @@ impl Monitor for C12 {
                     }
                 }
             }
+            // every sequence of up to 4 (quick) / 5 (thorough) units over the juxtaposition vocabulary -
+            // factors, suffixes, constants, a sign and an operator - and up to 5 / 6 over its core: a
+            // sequence the grammar accepts is compared with its explicit spelling; one it rejects, but
+            // would accept with `*` written at the juxtapositions, must be rejected by the evaluator too
+            // (seeded change C12-r8: `(2)3²4` accepted)
+            {
+                // (text, ends an operand, starts an operand)
+                let mut units: Vec<(&str, bool, bool)> = vec![("2", true, true), ("(3)", true, true), ("abs(4)", true, true), ("²", true, false), ("^2", true, false), ("@", true, true), ("-", false, false), ("*", false, false), ("^", false, false)];
+                let mut extra: Vec<(&str, bool, bool)> = vec![];
+                if ev != Ev::I64 {
+                    extra.push(("1.5", true, true));
+                }
+                if has_fact_mod(ev) {
+                    units.push(("!", true, false));
+                }
+                if has_consts(ev) {
+                    units.push(("π", true, true));
+                    extra.push(("e", true, true));
+                }
+                if has_floorceil_brackets(ev) {
+                    units.push(("⌊2.5⌋", true, true));
+                    extra.push(("⌈2.5⌉", true, true));
+                }
+                if has_degrad(ev) {
+                    units.push(("°", true, false));
+                    extra.push(("rad", true, false));
+                }
+                if Func::Max.available(ev) {
+                    extra.push(("max(1,2)", true, true));
+                }
+                if ev == Ev::Cpx {
+                    units.push(("i", true, true));
+                    extra.push(("2i", true, true));
+                }
+                let core = units.clone();
+                let mut full = units.clone();
+                full.extend(extra);
+                let z = crate::val::Val::zero(ev);
+                for (vocab, maxlen) in [(&full, ctx.tier.pick(4usize, 5)), (&core, ctx.tier.pick(5usize, 6))] {
+                    for len in 2..=maxlen {
+                        let mut owned: Vec<Vec<usize>> = vec![];
+                        for_each_seq(vocab.len(), len, &mut |idx| {
+                            // only sequences with at least one juxtaposition (an operand end followed by an operand start)
+                            if idx.windows(2).any(|w| vocab[w[0]].1 && vocab[w[1]].2) && ctx.mine() {
+                                owned.push(idx.to_vec());
+                            }
+                        });
+                        for idx in owned {
+                            let imp: String = idx.iter().map(|i| vocab[*i].0).collect();
+                            match parse(ev, &imp) {
+                                Ok(p) => {
+                                    if !p.unspec && p.ast.has_imul() {
+                                        let ex = explicit(&p.ast, None, &mut 0).render();
+                                        ctx.check(&Case::pair(ev, "explicit", &imp, z, &ex, z).with_extra("units"), &|c, st| self.judge(c, st));
+                                    }
+                                }
+                                Err(_) => {
+                                    let mut star = String::new();
+                                    for (k, i) in idx.iter().enumerate() {
+                                        if k > 0 && vocab[idx[k - 1]].1 && vocab[*i].2 {
+                                            star.push('*');
+                                        }
+                                        star.push_str(vocab[*i].0);
+                                    }
+                                    if parse(ev, &star).is_ok() {
+                                        ctx.check(&Case::new(ev, "forbidden", &imp, z).with_extra("units"), &|c, st| {
+                                            let v = self.judge(c, st);
+                                            if let Verdict::Pass { .. } = v {
+                                                st.inc("forbidden_unit_sequences_rejected");
+                                            }
+                                            v
+                                        });
+                                    }
+                                }
+                            }
+                        }
+                    }
+                }
+            }
             // many products in one input: nested and flat chains
             for k in [5usize, 20, 40, 63, 64, 65, 66, 80, 100, 120] {
                 let inner = if ev == Ev::I64 { "1" } else { "1" };
